@@ -27,10 +27,21 @@ CFG = {
                   "application binding-request handler (the property is stated for agents without one), TCP candidates, mDNS, "
                   "automatic renomination. The deferred-switch condition of controlledSelector.HandleSuccessResponse is translated as "
                   "a whole function in effect mode; its tie theorems are obligations of C20 (C20_code_controlled_success_response).",
-    "components": [{"component": "agent", "args": "focus=C03", "session_start": "new", "trivial_regex": "^(bad-op.*|ended.*)$", "shrink_s": 40}],
+    "components": [{"component": "agent", "args": "focus=C03", "session_start": "new", "trivial_regex": "^(bad-op.*|ended.*)$", "shrink_s": 40},
+                   # the gather component of C18/C09, restricted to its block of candidate kinds (host from the interface table, host on
+                   # the UDP / TCP mux, server reflexive, relay; mDNS name on / off): every local candidate the agent has started knows its
+                   # own transport address (IceSpec.C03Gather.addrViolation) - "a check of its own" needs requests that record the
+                   # candidate they left from (F34: a UDP-mux host candidate under the mDNS name had no address, responseSymmetric
+                   # skipped its source test)
+                   {"component": "gather", "session_start": "new", "args": "addrkinds", "trivial_regex": r"^(bad-op.*|r=err:.*)$",
+                    "timeout_quick": 300, "timeout_thorough": 900, "shrink_s": 40}],
     "rule": "quick/thorough: the `agent` component generator (random sessions of two-role, full/lite agents with early, repeated "
             "and out-of-order USE-CANDIDATE, equal and adjacent pair priorities, role conflicts, prflx discovery, restarts); "
-            "every op's canonical digest (selected pair, pair states, datagrams emitted) is diffed against the model.",
+            "every op's canonical digest (selected pair, pair states, datagrams emitted) is diffed against the model. "
+            "gather (args addrkinds): 20 configurations (every kind of local candidate: host from the interface table, host on the UDP mux "
+            "with IPv4 / IPv6 / link-local / loopback / several listen addresses, TCP mux, server reflexive own socket / mux / rewrite, relay) "
+            "x mDNS name on / off x a reply script with Restart and Close: every candidate's digest carries whether it knows its own transport "
+            "address; judged by IceSpec.C03Gather.addrViolation and compared with IceModel.Gather.",
     "translated": ["controlledSelector.shouldSwitchSelectedPair", "Agent.needsToCheckPriorityOnNominated",
                    "controlledSelector.shouldAcceptNomination", "controllingSelector.isNominatable",
                    "controllingSelector.ContactCandidates", "controlledSelector.ContactCandidates",
